@@ -6,6 +6,7 @@ use http::header::{HeaderName, HeaderValue};
 
 const DEFAULT_MAX_ALLOWED_SIZE: usize = 4 * 1024;
 
+#[cfg_attr(feature = "verif-hooks", derive(Clone))]
 #[derive(Debug)]
 pub struct Encoder {
     table: Table,
